@@ -1,4 +1,5 @@
 import Driver.Util
+import Driver.Log
 import Driver.BitSet
 import Driver.Set
 import Driver.GSync
@@ -13,6 +14,7 @@ Core-only so that it links as a native executable. -/
 open Drv
 
 structure DState where
+  lg : Drv.Log.DSt := {}
   set : Drv.Set.St := none
   gsync : Drv.GSync.DSt := {}
   gc : Drv.GConfig.DSt := {}
@@ -40,6 +42,7 @@ def step (st : DState) (line : String) : DState × String :=
     | some d => ({ gsync := d }, joinSp ("case" :: "gsync" :: rest))
     | none => ({}, "bad-op")
   | "case" :: rest => ({}, joinSp ("case" :: rest))
+  | "lg" :: rest => let r := Drv.Log.handle st.lg rest; ({ st with lg := r.1 }, r.2)
   | "echo" :: rest => (st, joinSp rest)
   | _ => (st, "bad-op")
 
